@@ -25,8 +25,12 @@ CONSTANTS MaxCreate,   \* number of creations in a behaviour
 OrientNames == <<"ITRF", "PEF", "TOD", "MOD", "EME2000", "G50", "TEME", "TIRF", "CIRF", "GCRF">>
 NBuiltO == 10
 NO == NBuiltO + MaxCreate
-\* centre nodes: 1 = Earth ; created centres 2..(1+MaxCreate)
-NC == 1 + MaxCreate
+\* centre nodes: 1 = Earth ; created centres 2..(1+MaxCreate) ; three centres of a planetary kernel (its Earth, its barycentre,
+\* Mars) that jpl.create_frames() adds and links to the built-in Earth - at any moment of the session
+NC == 1 + MaxCreate + 3
+JE == NC - 2
+JS == NC - 1
+JM == NC
 
 \* links of beyond/frames/orient.py in source order:  ITRF+PEF+TOD+MOD+EME2000+G50 ; TOD+TEME ; ITRF+TIRF+CIRF+GCRF
 BuiltinOLinks == <<<<1, 2>>, <<2, 3>>, <<3, 4>>, <<4, 5>>, <<5, 6>>, <<3, 7>>, <<1, 8>>, <<8, 9>>, <<9, 10>>>>
@@ -70,7 +74,8 @@ Init ==
      /\ acts = <<>>
      /\ nobs = 0
 
-NCreated == Len(frames) - NBuiltO
+NCreated == Cardinality({i \in 1..Len(frames) : frames[i].kind \in {"station", "orbit"}})
+JplLoaded == \E i \in 1..Len(acts) : acts[i].op = "loadjpl"
 NewO == NBuiltO + NCreated + 1
 NewC == 1 + NCreated + 1
 
@@ -102,6 +107,18 @@ CreateOrbitFrame(r, lof, p) ==
   /\ acts' = Append(acts, [op |-> "orbit", parent |-> p, ref |-> r, lof |-> lof])
   /\ UNCHANGED <<ohist, nobs>>
 
+\* jpl.create_frames(): the kernel's centres are linked among themselves (target.add_link(centre)), then the built-in Earth
+\* centre - with whatever already hangs from it - is attached to the kernel's Earth; two of the new frames are kept for observation
+LoadJpl ==
+  /\ ~JplLoaded
+  /\ LET c1 == TLCEval(LinkC(cnb, crt, JM, JS))
+         c2 == TLCEval(LinkC(c1[1], c1[2], JE, JS))
+         c3 == TLCEval(LinkC(c2[1], c2[2], 1, JE))
+     IN cnb' = c3[1] /\ crt' = c3[2]
+  /\ frames' = frames \o << [kind |-> "jpl", o |-> 5, c |-> JM, parent |-> 0, ref |-> 0], [kind |-> "jpl", o |-> 5, c |-> JS, parent |-> 0, ref |-> 0] >>
+  /\ acts' = Append(acts, [op |-> "loadjpl", parent |-> 0, ref |-> 0, lof |-> "-"])
+  /\ UNCHANGED <<onb, ort, ohist, nobs>>
+
 \* conversions of a fixed state between every ordered pair of existing frames (pure observation)
 ObserveAll ==
   /\ nobs < MaxObserve
@@ -120,6 +137,7 @@ Next ==
   \/ \E p \in StationParents : CreateStation(p)
   \/ \E r \in RefFrames, lof \in {"None", "QSW", "TNW"}, p \in InertialParents : CreateOrbitFrame(r, lof, p)
   \/ ObserveAll
+  \/ LoadJpl
 
 Spec == Init /\ [][Next]_vars
 
